@@ -62,6 +62,7 @@ type Path struct {
 	substMemo map[int]*term.T
 	pcSet     map[int]bool
 	loops     map[*fnInfo]int64
+	termVal   map[int]*term.T
 	stackAtAbort []*fnInfo
 }
 
@@ -350,7 +351,7 @@ func (e *Explorer) Run() (*ExploreStats, error) {
 // RunPath executes one path. It returns the result and the sibling work items discovered.
 func (in *Interp) RunPath(entry *ssa.Function, item WorkItem, e *Explorer) (res *PathResult, sibs []WorkItem, err error) {
 	p := &Path{Prefix: item.Prefix, Model: item.Model, ModelOK: item.Model != nil || len(item.Prefix) == 0, Tainted: item.Tainted,
-		names: map[string]int{}, ConcLimit: 64, pcVars: map[string]*term.T{}, bind: map[int]*term.T{}, substMemo: map[int]*term.T{}, pcSet: map[int]bool{}}
+		names: map[string]int{}, ConcLimit: 64, pcVars: map[string]*term.T{}, bind: map[int]*term.T{}, substMemo: map[int]*term.T{}, pcSet: map[int]bool{}, termVal: map[int]*term.T{}}
 	if p.Model == nil {
 		p.Model = term.Model{}
 	}
@@ -477,6 +478,10 @@ func (in *Interp) addPC(c *term.T) {
 			learn(a, b)
 		} else if b.Op == term.OVar && a.IsConst() {
 			learn(b, a)
+		} else if b.IsConst() {
+			p.termVal[a.ID] = b
+		} else if a.IsConst() {
+			p.termVal[b.ID] = a
 		}
 	case term.OVar:
 		learn(c, in.st.True)
@@ -490,18 +495,32 @@ func (in *Interp) addPC(c *term.T) {
 // simplify substitutes variables whose value the path condition pins down.
 func (in *Interp) simplify(c *term.T) *term.T {
 	p := in.path
-	if len(p.bind) == 0 || c.IsConst() {
+	if c.IsConst() {
 		return c
 	}
-	return in.st.Subst(c, p.bind, p.substMemo)
+	if k, ok := p.termVal[c.ID]; ok {
+		return k
+	}
+	if len(p.bind) == 0 {
+		return c
+	}
+	r := in.st.Subst(c, p.bind, p.substMemo)
+	if k, ok := p.termVal[r.ID]; ok {
+		return k
+	}
+	return r
 }
 
 // sliceFor returns the constraints of the PC that (transitively) share variables with c, and those variables.
 func (in *Interp) sliceFor(c *term.T) ([]*term.T, []*term.T) {
+	return in.sliceForVars(c.Vars())
+}
+
+func (in *Interp) sliceForVars(seedVars []*term.T) ([]*term.T, []*term.T) {
 	p := in.path
 	want := map[int]bool{}
 	var vars []*term.T
-	for _, v := range c.Vars() {
+	for _, v := range seedVars {
 		if !want[v.ID] {
 			want[v.ID] = true
 			vars = append(vars, v)
@@ -546,7 +565,16 @@ type qres struct {
 
 // query decides slice(PC, c) ∧ c with caching; on sat it returns a model of the slice variables.
 func (in *Interp) query(c *term.T) (smt.Result, term.Model) {
-	cs, vars := in.sliceFor(c)
+	return in.queryWith(c, c)
+}
+
+// queryWith decides c on the slice of the PC that shares variables with seed or c.
+func (in *Interp) queryWith(seed, c *term.T) (smt.Result, term.Model) {
+	cs, vars := in.sliceFor(in.st.And(in.st.Eq(seed, seed), c))
+	if seed != c {
+		// slice on the variables of both terms
+		cs, vars = in.sliceForVars(append(append([]*term.T{}, seed.Vars()...), c.Vars()...))
+	}
 	ids := make([]int, 0, len(cs)+1)
 	for _, x := range cs {
 		ids = append(ids, x.ID)
@@ -559,6 +587,10 @@ func (in *Interp) query(c *term.T) (smt.Result, term.Model) {
 	}
 	kb.WriteByte('|')
 	kb.WriteString(strconv.Itoa(c.ID))
+	if seed != c {
+		kb.WriteByte('/')
+		kb.WriteString(strconv.Itoa(seed.ID))
+	}
 	key := kb.String()
 	if in.qcache == nil {
 		in.qcache = map[string]qres{}
@@ -567,7 +599,11 @@ func (in *Interp) query(c *term.T) (smt.Result, term.Model) {
 		in.cacheHits++
 		return e.r, e.m
 	}
-	r, m, err := in.solver.Check(append(cs, c), vars)
+	asserts := cs
+	if !c.IsTrue() {
+		asserts = append(asserts, c)
+	}
+	r, m, err := in.solver.Check(asserts, vars)
 	if err != nil {
 		in.solverTrouble(err)
 	}
@@ -851,7 +887,7 @@ func (in *Interp) newInput(name, kind string, sort term.Sort) *term.T {
 	if k > 0 {
 		full = fmt.Sprintf("%s#%d", name, k)
 	}
-	t := in.st.Var(full, sort)
+	t := in.st.Var(full+":"+kind, sort)
 	p.Inputs = append(p.Inputs, Input{Name: full, Kind: kind, T: t})
 	return t
 }
